@@ -5,7 +5,7 @@
    for texts without super-variable / inline-if tokens and is otherwise
    searched with sanitizers, not proved (DESIGN.md C01). *)
 From Coq Require Import NArith List.
-From Qv Require Import gen.Tables_tmpl FinderModel FinderProofs TparseModel TparseSafety TparseTree.
+From Qv Require Import gen.Tables_tmpl FinderModel FinderProofs TparseModel TparseSafety TparseTree TrenderModel TrenderProofs.
 Import ListNotations.
 
 (* Finder::Next never reads content_[i] with i >= length_ and its loop terminates,
@@ -72,3 +72,32 @@ Theorem c01_tree_ok_no_inline : forall w content l,
   parse_model w content = Ok l -> tree_ok (length content) l.
 Proof. exact tree_ok_no_inline. Qed.
 Print Assumptions c01_tree_ok_no_inline.
+
+(* the tree parse builds obeys the offset discipline for EVERY text (incl. super
+   variables and inline ifs): tags ordered inside their range, Offset <= EndOffset <=
+   length, children inside parents, variable records inside the text with a Level of
+   an enclosing loop, inline-if slices disjoint inside the tag and start ids
+   partitioning the sub tags *)
+Theorem c01_tree_ok_all : forall w content l, parse_model w content = Ok l -> tree_ok (length content) l.
+Proof. exact tree_ok_all. Qed.
+Print Assumptions c01_tree_ok_all.
+
+(* the renderer model (TrenderModel.v: render, renderVariable, renderRawVariable,
+   renderMath, renderSuperVariable, renderInLineIf, renderLoop, renderIf, getValue,
+   with every slice, every index into the loop-item array, every start id and every
+   read of the text checked) never fails on a tree that obeys the discipline --
+   for an ARBITRARY value type and lookup / iteration / text / grouping / sorting
+   functions, escape function and expression evaluators *)
+Theorem c01_render_safe : forall (value : Type) get_key members value_text value_chars group_by sort_value esc eval_math eval_cond
+  content (root : value) tags, tree_ok (length content) tags ->
+  forall e, render_model value get_key members value_text value_chars group_by sort_value esc eval_math eval_cond content root tags <> RError e.
+Proof. exact render_safe. Qed.
+Print Assumptions c01_render_safe.
+
+(* C01 on the model: Template::Render = Parse then Render never fails, for every
+   template text in every character width and every value *)
+Theorem c01_render_all_safe : forall (value : Type) get_key members value_text value_chars group_by sort_value esc eval_math eval_cond
+  w content (root : value) e,
+  render_all value get_key members value_text value_chars group_by sort_value esc eval_math eval_cond w content root <> RError e.
+Proof. exact render_all_safe. Qed.
+Print Assumptions c01_render_all_safe.
